@@ -95,6 +95,30 @@ func DrawArgs(t *rapid.T, label string) []val.KV {
 		}
 		out = append(out, val.KV{K: k, V: v})
 	}
+	if len(out) > 0 && rapid.IntRange(0, 4).Draw(t, label+"_twin") == 2 {
+		// a second key that is the first one DECORATED with characters that mean something to a selector parser
+		// (quotes, brackets, dots, question marks, blanks), holding a NEIGHBOURING value: a statement on the one
+		// must not be answered with the value of the other
+		e := out[rapid.IntRange(0, len(out)-1).Draw(t, label+"_twin_of")]
+		deco := rapid.SampledFrom([]string{"'%s'", "%s?", ".%s", "[%s]", "%s[]", " %s", "%s ", "%s.", "'%s", "%s'", "`%s`", "(%s)", "%s[0]", "$%s", "%s:", "-%s"}).Draw(t, label+"_twin_deco")
+		k := fmt.Sprintf(deco, e.K)
+		var v val.V
+		ok := true
+		switch e.V.Kind() {
+		case "int":
+			v = val.Int(e.V.I + int64(rapid.SampledFrom([]int{-1, 1}).Draw(t, label+"_twin_d")))
+		case "str":
+			v = val.Str(e.V.StrVal() + "x")
+		case "bool":
+			v = val.Bool(!e.V.B)
+		default:
+			ok = false
+		}
+		if ok && !seen[k] {
+			seen[k] = true
+			out = append(out, val.KV{K: k, V: v})
+		}
+	}
 	if !seen["deep"] && rapid.IntRange(0, 7).Draw(t, label+"_deep") == 0 {
 		// a value nested d containers deep, every d from 1 to 70 (and a few beyond): nothing in the rules bounds
 		// the nesting of arguments; whatever the constructor accepts must not be refused at check time
@@ -175,6 +199,9 @@ func drawStmtOnce(t *rapid.T, args []val.KV, want bool, label string) pol.Stmt {
 	}
 	e := args[rapid.IntRange(0, len(args)-1).Draw(t, label+"_e")]
 	fs := sel.Sel{{Kind: "field", Name: e.K, Opt: rapid.IntRange(0, 4).Draw(t, label+"_opt") == 0}}
+	if sel.NeedsQuote(e.K) {
+		fs[0].Kind = "qfield"
+	}
 	switch e.V.Kind() {
 	case "int":
 		d := int64(rapid.IntRange(-2, 2).Draw(t, label+"_d"))
